@@ -228,7 +228,7 @@ def gated_numbering(ctx):
 
 def check_C08(ctx):
     ctx.assumptions += ['bounded model (constants in the cfg files named under mc_runs)',
-                        'log retirement (replication retention) is outside C08: once the files are gone nothing records their numbers']
+                        'log retirement while the database is closed is outside C08 (once the files are gone nothing records their numbers); the primary\'s live retention is covered by KevoRetention!NextAbove under C02']
     tlc_mc(ctx, 'MC_Store', 'MC_Store_quick.cfg' if ctx.quick() else 'MC_Store_thorough.cfg', timeout=900 if ctx.quick() else 3000)
     n = 250 if ctx.quick() else 2500
     behs = gen(ctx, 'GEN_Store_noretire.cfg', n)
@@ -240,6 +240,15 @@ def check_C08(ctx):
     selftest_hooks(ctx, behs[-20:])
     ctx.traces += run_replays(ctx, 'C08', behs, flags, CLASSES[:3], 'c08')
     gated_numbering(ctx)
+    # crash recoveries: the committed crash programs (large, fragmented entries; unsynced log) and two generated ones, stopped at
+    # hook sites incl. torn final writes; after the recovery the numbering must continue behind the surviving operations
+    # (TRACE_Durable!TObs: seq = number of surviving operations; then further writes, reopen, observed again).  The
+    # configuration that also accepts the outcome of the open torn-batch finding is used: that finding is about C02/C03
+    from props import crash
+    cprogs = read_ndjson(os.path.join(ROOT, 'corpus', 'crash.ndjson'))
+    crash.enumerate_crashes(ctx, 'C08', cprogs, [crash.CRASH_CLASSES[4]], cap=3 if ctx.quick() else 10, cfg='TRACE_Durable_kf.cfg')
+    crash.enumerate_crashes(ctx, 'C08', crash.programs(ctx, 2 if ctx.quick() else 20), crash.CRASH_CLASSES[:3], cap=3 if ctx.quick() else 8,
+                            cfg='TRACE_Durable_kf.cfg')
     ctx.evaluations = ctx.traces
     write_evidence(ctx, 'model_checking',
                    'behaviours drawn by TLC simulation of GEN_Store (no log retirement) replayed under 3 configuration classes; after every '
